@@ -63,3 +63,8 @@ func VerifOamWindowRegs() {
 	vAssert("oam-untouched", l.o.VerifByte(i) == b0)
 	vReach("end")
 }
+
+// oamWindow: the OAM corruption window is open only while the LCD is on and in mode 2 (C17)
+func oamWindow(l *verifLCD) bool {
+	return !l.o.VerifCorrupt() || (l.p.enabled && l.p.mode == 2)
+}
